@@ -269,6 +269,17 @@ def gen_c15(rng, tier):
     reads = [65536] * (big // 65536 + 5)
     cases.append((c15_case_line(items, reads), items, reads, 'large', True))
     stats['large_chunk'] += 1
+    # (c2) a chunk of 1.25 MiB that travels in three messages, more than 1 MiB of it before the message that ends
+    # the chunk, followed by 1.2 MiB of a chunk that is never ended: nothing of a chunk is handed out before its
+    # last message has arrived, and nothing at all of the unfinished one
+    K = 1024
+    g = ByteGen()
+    c, d = g.take(1280 * K), g.take(1200 * K)
+    items = [(c[:600 * K], False), (c[600 * K:1100 * K], False), (c[1100 * K:], True), (d[:700 * K], False), (d[700 * K:], False)]
+    for rs in (65536, 1 << 20):
+        reads = [rs] * ((2480 * K) // rs + 8)
+        cases.append((c15_case_line(items, reads), items, reads, 'large-split', True))
+        stats['large_split_chunk'] += 1
     # (d) the writer: WriteChunk(header, content) sequences through the whole pipeline
     wr = []
     for i in range(80 if tier == 'quick' else 800):
